@@ -13,6 +13,8 @@
   61 '=', 64 '@', 82 'R', 123 '{', 125 '}'.
 -/
 import GIV.Lemmas.ScriptLine
+import GIV.Lemmas.ScriptIdx
+import GIV.Lemmas.ScriptExpandIdx
 import GIV.Lemmas.ScriptEnv
 import GIV.Lemmas.ScriptRegex
 namespace GIV.C02
@@ -26,6 +28,25 @@ theorem constants :
   ⟨isBlank_iff, isComment_iff, quoteChar_eq⟩
 
 example : isBlank 32 = true ∧ isBlank 9 = true ∧ isComment 35 = true ∧ isBlank 97 = false := by decide
+
+/-! ### the model that is run against the implementation is the model of the theorems -/
+
+/-- The index form of the tokenizer (`parseIdx`: the Go loop with `i`, `start = -1 | index`, `quoted`,
+chunks as slices `line[start:i]`, the `i++` over a doubled quote), which is what the model driver
+executes in the correspondence run, is the same function as the structural form `parseLine` that all
+theorems below are stated for. -/
+theorem index_form_agrees (env : Env) (line : Bytes) : parseIdx env line = parseLine env line :=
+  parseIdx_eq env line
+
+example : parseIdx [([88], [118])] [97, 32, 39, 98, 39, 39, 99, 39, 36, 88] = .ok [[97], [98, 39, 99, 118]] := by rfl
+
+/-- Likewise for os.Expand: its index form (`osExpandIdx`: Go's `j`, `i`, `buf`, `s[i:j]`, getShellName's
+scanning loops), which the driver runs against the real os.Expand, never panics and is the structural
+`osExpand` that `expand` is defined with. -/
+theorem expand_index_form_agrees (s : Bytes) (m : Bytes → Bytes) : osExpandIdx s m = some (osExpand s m) :=
+  osExpandIdx_eq s m
+
+example : osExpandIdx [97, 36, 123, 75, 125, 36, 123, 36] (fun k => if k = [75] then [118] else []) = some [97, 118, 36] := by rfl
 
 /-! ### quoting -/
 
@@ -153,9 +174,17 @@ example : parseLine [] ([([9, 32], [97, 98]), ([32, 32], [99])].flatMap (fun p =
     = .ok [[97, 98], [99]] := by
   apply split_law <;> decide
 
+-- " $X\tb" with X = `p q`: two arguments, the first is the (unsplit) value
+example : parseLine [([88], [112, 32, 113])] ([([32], [36, 88]), ([9], [98])].flatMap (fun p => p.1 ++ p.2) ++ [])
+    = .ok [[112, 32, 113], [98]] := by
+  have h := split_expand_law [([88], [112, 32, 113])] [([32], [36, 88]), ([9], [98])] [] (by decide) (by decide) (by decide)
+  rw [h]; rfl
+
 /-- A line of blanks only has no arguments. -/
 theorem blank_line (env : Env) (b : Bytes) (hb : AllBlank b) : parseLine env b = .ok [] :=
   tok_tail env b ⟨b, hb, Or.inl rfl⟩ []
+
+example : parseLine [] [32, 9, 13, 32] = .ok [] := blank_line _ _ (by decide)
 
 /-! ### comments and unterminated quotes -/
 
@@ -323,6 +352,12 @@ theorem env_list_map_agree (ts : TS) (h : Reach ts) (k : Bytes) :
 theorem env_command_reach (ts : TS) (h : Reach ts) (args : List Bytes) : Reach (cmdEnv ts args) :=
   cmdEnv_reach h args
 
+-- after setup with A=1 B=2 A=3 and `env A=4=5 C`: reachable, and Getenv A reads the list's last A entry
+example : Reach (cmdEnv (TS.setup [[65, 61, 49], [66, 61, 50], [65, 61, 51]]) [[65, 61, 52, 61, 53], [67]]) :=
+  env_command_reach _ (Reach.setup _) _
+example : (cmdEnv (TS.setup [[65, 61, 49], [66, 61, 50], [65, 61, 51]]) [[65, 61, 52, 61, 53], [67]]).getenv [65] = [52, 61, 53] := by
+  rw [env_list_map_agree _ (env_command_reach _ (Reach.setup _) _)]; decide
+
 /-- **Executed programs see the same values.**  In every reachable state without NUL bytes in the
 environment (os/exec refuses to start a child otherwise), the strings the child receives —
 `ts.env` plus `PWD=<cd>`, after os/exec's de-duplication — read the way a process reads its
@@ -358,6 +393,18 @@ example : ∃ out, ((TS.setup [[65, 61, 49], [66, 61, 50], [65, 61, 51]]).setenv
     childGetenv out [65] = [52] ∧ childGetenv out [66] = [50] := by
   refine ⟨_, rfl, by decide, by decide⟩
 
+/-- The limit of that clause, stated for the record: with a NUL byte in any entry of `ts.env` no
+child is started at all (os/exec returns "environment variable contains NUL"), although Getenv and
+expansion still yield the value. -/
+theorem child_refused_on_nul (ts : TS) (cd : Bytes) (h : ∃ kv ∈ ts.env, (kv.contains 0) = true) :
+    ts.childEnv cd = .error .nul := by
+  obtain ⟨kv, hm, hk⟩ := h
+  simp only [TS.childEnv, Gen.Script.childEnvIsListPlusPWD, if_true]
+  exact dedupEnv_nul _ ⟨kv, by simp [hm], hk⟩
+
+example : ((TS.setup [[65, 61, 49]]).setenv [66] [120, 0, 121]).childEnv [47] = .error .nul :=
+  child_refused_on_nul _ _ ⟨[66, 61, 120, 0, 121], by decide, by decide⟩
+
 /-! ### `${NAME@R}` -/
 
 /-- **QuoteMeta'd text is a literal pattern for exactly the value**: in the literal fragment of RE2
@@ -380,6 +427,8 @@ theorem quoteMeta_specials (c : UInt8) :
   · intro h
     simp only [List.mem_cons, List.mem_nil_iff, or_false] at h
     rcases h with h | h | h | h | h | h | h | h | h | h | h | h | h | h <;> subst h <;> decide
+
+example : special 46 = true ∧ special 97 = false ∧ special 92 = true := by decide
 
 /-- **`${k@R}`** is one argument: the QuoteMeta of the current value of `k`. -/
 theorem atR_expands (env : Env) (k : Bytes) (hk : NameOK k) :
@@ -405,6 +454,9 @@ current value of `k`. -/
 theorem atR_exact (env : Env) (k : Bytes) (hk : NameOK k) :
     ∃ p, parseLine env (36 :: 123 :: (k ++ [64, 82, 125])) = .ok [p] ∧ ∀ w, litLang p w ↔ w = lookup env k :=
   ⟨_, atR_expands env k hk, atR_literal _⟩
+
+example : ∃ p, parseLine [([75], [97, 46, 98])] [36, 123, 75, 64, 82, 125] = .ok [p] ∧ ∀ w, litLang p w ↔ w = [97, 46, 98] :=
+  atR_exact _ [75] ⟨by decide, 75, [], rfl, by decide⟩
 
 -- K = `a.b (c)`
 example : parseLine [([75], [97, 46, 98, 32, 40, 99, 41])] [36, 123, 75, 64, 82, 125] = .ok [[97, 92, 46, 98, 32, 92, 40, 99, 92, 41]] :=
